@@ -25,7 +25,7 @@ def repo_hook_commits():
 
 manifest = {
     "version": 1,
-    "setup_cmd": "cd /verif/engines && CARGO_NET_OFFLINE=true cargo build --offline --profile verif --workspace",
+    "setup_cmd": "cd /verif/engines && for e in seglogx dbx topox parsex cbloom clusterx protox; do CARGO_NET_OFFLINE=true cargo build --offline --profile verif -p $e || exit 1; done",
     "hooks": {
         "guard": "cargo feature `verif-hooks` on seglog / sierradb / sierradb-cluster (default off); cargo feature `verif-loom` on sierradb-cluster (declared, never enabled by the repo; the C26 engine #[path]-includes circuit_breaker.rs with its own feature of that name)",
         "enable": "engines under /verif/engines depend on the /repo crates by path with features = [\"verif-hooks\"]; ./check rebuilds them from /repo's working tree",
